@@ -93,6 +93,39 @@ VERBS = {
         "in": [["frame", "f0"], ["frame"]], "by": [["mark"]]}, [[], ["and", "elapsed", ">=", "1.0"]]),
 }
 
+# relative addresses ending in an UNNAMED relation: the optional-name look-ahead of parseRelation
+# is what stands between such a clause and the connective of the clause that follows it
+REL_ENDS = [["of", "me"], ["of", "root"], ["of", "framer"], ["of", "frame"], ["of", "actor"],
+            ["of", "actor", "of", "frame"], ["of", "frame", "of", "framer"], ["of", "actor", "of", "frame", "of", "framer"],
+            ["of", "actor", "doer"], ["of", "frame", "f0", "of", "framer"]]
+# verb -> {indirect-kind connective: [address stems]}
+REL_CLAUSES = {
+    "do": {"via": [["p"]], "from": [["value", "in", "reference"], ["reference"]],
+           "for": [["u", "in", "src"]], "qua": [["z", "in", "ini"]]},
+    "framer": {"via": [["n"]]}, "frame": {"via": [["n"]]}, "aux": {"via": [["p"]]},
+}
+
+
+def relation_commands(ctx, verb, spec):
+    """every indirect clause ending in every relation form, directly followed by every other
+    clause of the verb (both orders are built: all permutations of the pair)"""
+    _, _, _, pool, tails = spec
+    out = []
+    for c, stems in REL_CLAUSES.get(verb, {}).items():
+        for stem in stems:
+            for end in REL_ENDS:
+                others = [o for o in pool if o != c]
+                if not ctx.thorough and len(others) > 4:
+                    keep = [o for o in others if o in ("via", "with", "per", "as", "at")]
+                    rest = [o for o in others if o not in keep]
+                    ctx.rng.shuffle(rest)
+                    others = keep + rest[:1]
+                for o in others:
+                    out.append(([(c, stem + end), (o, list(pool[o][0]))], list(tails[-1]) if verb == "aux" and
+                                ctx.rng.random() < 0.3 else []))
+    return out
+
+
 # how a failing permutation is attributed to a finding: (verb, clause, next connective) -> key
 FINDING_KEYS = [
     ("do", "as", ("via", "from", "per"), "do-as-terminators"),
@@ -114,6 +147,9 @@ def cstrs(toks):
     return "[" + "; ".join('"%s"' % t.replace('"', '""') for t in toks) + "]%string" if toks else "(@nil string)"
 
 
+_TABLE_FACTS = {"as_terms": None, "reserved": None}     # filled from the extracted tables in run()
+
+
 def attribute(verb, perm):
     """finding key for a failing permutation (list of (connective, body)): the specific input
     shape of each known finding, nothing wider"""
@@ -127,6 +163,10 @@ def attribute(verb, perm):
                 continue        # only a relation without its optional name can take 'first' for the name
             if key == "server-for-absorbs-in" and "in" in body:
                 continue        # only a source without a field list reads the next 'in' as its own
+            if key == "do-as-terminators" and (_TABLE_FACTS["as_terms"] is None or b in _TABLE_FACTS["as_terms"]):
+                continue        # the extracted 'as' list does end at this connective: some other cause
+            if key == "server-per-absorbs-rx-tx" and (_TABLE_FACTS["reserved"] is None or b in _TABLE_FACTS["reserved"]):
+                continue
             return key
     return None
 
@@ -184,13 +224,19 @@ def run(ctx):
         ctx.extra["tables"] = {v["verb"]: [[c, k[0]] + ([k[1]] if len(k) > 1 else []) for c, k in v["clauses"]]
                                for v in tables["verbs"]}
         ctx.coq_build("C15/Props.v")
+        _TABLE_FACTS["reserved"] = set(tables["reserved"])
+        for v in tables["verbs"]:
+            if v["verb"] == "do":
+                for c, k in v["clauses"]:
+                    if c == "as" and k[0] == "KNameParts":
+                        _TABLE_FACTS["as_terms"] = set(k[1])
 
     cases, metas = [], []
     nbuild = 0
     for verb, spec in VERBS.items():
         vname, script, prefix, pool, tails = spec
         skip = 1 if verb != "need-marker" else len(prefix)     # the verb (for a need: the need itself)
-        for clauses, tail in commands_for(ctx, verb, spec):
+        for clauses, tail in commands_for(ctx, verb, spec) + relation_commands(ctx, verb, spec):
             perms = list(itertools.permutations(clauses))
             outcomes, toklists = [], []
             for i, perm in enumerate(perms):
